@@ -80,4 +80,10 @@ P_C10rx == [][ev'.ev = "rx" => RxOK(ev'.f, ev'.delivered)]_vars
 P_C04rx == [][(ev'.ev = "rx" /\ ~Accepts(ev'.f)) => store' = store]_vars
 StoreSound == \A b \in DOMAIN store : store[b].have # {} /\ store[b].have \subseteq 0..(store[b].cnt - 1) /\ store[b].have # 0..(store[b].cnt - 1)
 ImplDelivered(f) == IF Accepts(f) /\ (Completes(f) \/ (f.idx = 0 /\ f.cnt = 1)) THEN << Base(f) >> ELSE << >>
+\* ---- local header fields on reception -----------------------------------------------------------------------
+\* NextHopFaceId (consumer-controlled forwarding, used by C02/C09) and CachePolicy are handed to the forwarder only on
+\* faces where the corresponding option is enabled; the congestion mark and the PIT token always
+LocalFieldsOK(e) == /\ e.gotNextHop = (e.hasNextHop /\ e.optNextHop)
+                    /\ e.gotCachePolicy = (e.hasCachePolicy /\ e.optCachePolicy)
+                    /\ e.gotMark = e.hasMark /\ e.gotToken = e.hasToken
 =============================================================================
